@@ -210,7 +210,7 @@ class HttpDigestAuthorization(object):
         self.nc = paramsd.get('nc')  # nonce count
 
         # perform some correctness checks
-        if self.algorithm not in valid_algorithms:
+        if self.algorithm not in [alg.upper() for alg in valid_algorithms]:
             raise ValueError(
                 self.errmsg("Unsupported value for algorithm: '%s'" %
                             self.algorithm))
@@ -344,7 +344,7 @@ class HttpDigestAuthorization(object):
         # receipt of a WWW-Authenticate challenge from the server.
         # A1 = H( unq(username-value) ":" unq(realm-value) ":" passwd )
         #         ":" unq(nonce-value) ":" unq(cnonce-value)
-        if self.algorithm == 'MD5-sess':
+        if self.algorithm == 'MD5-SESS':
             ha1 = H('%s:%s:%s' % (ha1, self.nonce, self.cnonce))
 
         digest = H('%s:%s' % (ha1, req))
